@@ -67,7 +67,11 @@ PLAN = {
         item("h_model", "categorical", 600_000, 24_000_000, param=19, max_len=(2048, 16384)),
         item("h_model", "leaky", 48_000, 2_000_000, param=19, max_len=(2048, 4096)),
     ],
-    "C10": [item("h_model", "c10_decode", 1_600_000, 48_000_000, max_len=(2048, 16384))],
+    "C10": [
+        item("h_model", "c10_decode", 1_600_000, 48_000_000, max_len=(2048, 16384)),
+        # chain coder over arbitrary data with change_precision between symbols (C10 oracle only)
+        item("h_chain", "c13_chain", 600_000, 16_000_000, param=10, max_len=(1024, 8192)),
+    ],
     "C09": [item("h_model", "c09_impossible", 1_600_000, 48_000_000, max_len=(2048, 16384))],
     "C20": [
         item("h_model", "c20_unsafe", 1_600_000, 64_000_000, max_len=(1024, 4096)),
@@ -194,7 +198,8 @@ RULES = {
            "valid stream of in-support symbols that is truncated / extended / bit-flipped}, 1..3 valid models used round-robin from the zoo "
            "{harness tables, uniform, contiguous _fast/_perfect/fixed-point, lazy f32/f64, non-contiguous, contiguous and non-contiguous "
            "lookup decoders, leakily quantised distributions over i32 symbols with arbitrary inverse hints}); configs (PRECISION/Word/State): "
-           "8/u16/u32, 8/u8/u16, 12/u16/u32, 16/u16/u32, 12/u32/u64, 24/u32/u64, 32/u32/u64; non-trivial = >= 3 symbols decoded from >= 2 words",
+           "8/u16/u32, 8/u8/u16, 12/u16/u32, 16/u16/u32, 12/u32/u64, 24/u32/u64, 32/u32/u64; non-trivial = >= 3 symbols decoded from >= 2 words; "
+           "second target: chain-coder histories of C13 (arbitrary words, harness tables, change_precision between symbols over the chain grid) judged by the C10 oracle only; non-trivial = >= 2 decodes and >= 1 precision change",
     "C09": "case = (coder from {ANS over Vec, range encoder, chain coder, ANS over a bounded Cursor of 0..7 words that fills up, ANS over a "
            "sink that fails exactly the j-th write, bit-level stack / queue coder with a generated Huffman codebook}, 1..3 valid models with "
            "an encoder view from the zoo used round-robin, encode history of 0..40 (quick) / 0..400 symbols in which each position is, with a "
